@@ -44,13 +44,16 @@ def make_observer(withs):
     return ExactObserver(withs, suspended=True, running=False, direct=True)
 
 
-def deep_programs():
-    """Deeply nested blocks (CPython allows 20 statically nested blocks): (label, kind, src, withs)."""
+def deep_programs(probe=False):
+    """Deeply nested blocks (CPython allows 20 statically nested blocks): (label, kind, src, withs).
+    probe=True: the variants for running frames (C02): plain function and coroutine, a probe() call in the body."""
     out = []
-    for kind in ("coro", "gen", "agen"):
-        head = {"coro": "async def prog(rt):", "agen": "async def prog(rt):", "gen": "def prog(rt):"}[kind]
-        susp = {"coro": "await trap('body')", "agen": "yield 'body'", "gen": "yield 'body'"}[kind]
-        asyncs = kind != "gen"
+    for kind in (("func", "coro") if probe else ("coro", "gen", "agen")):
+        head = {"coro": "async def prog(rt):", "agen": "async def prog(rt):", "gen": "def prog(rt):", "func": "def prog(rt):"}[kind]
+        susp = {"coro": "await trap('body')", "agen": "yield 'body'", "gen": "yield 'body'"}.get(kind)
+        if probe:
+            susp = "rt.probe('body')"
+        asyncs = kind not in ("gen", "func")
         for k in (6, 10, 11, 12, 15):
             # one with statement, k items
             lines = [head, "    z = None"]
